@@ -271,7 +271,7 @@ pub fn gen_mc_ext(src: &mut Src, info: &mut Info, p: [bool; 4]) -> Value {
     if info.opt(p[2]) {
         m.push(ks("largeBlobKey", Value::Bool(src.bool())));
     }
-    if cfg!(feature = "tpp") && info.opt(p[3]) {
+    if crate::respmodel::tpp() && info.opt(p[3]) {
         m.push(ks("thirdPartyPayment", Value::Bool(src.bool())));
     }
     Value::Map(m)
@@ -319,7 +319,7 @@ pub fn gen_ga_ext(src: &mut Src, info: &mut Info, p: [bool; 3], p_alg: bool, p_p
     if info.opt(p[1]) {
         m.push(ks("largeBlobKey", Value::Bool(src.bool())));
     }
-    if cfg!(feature = "tpp") && info.opt(p[2]) {
+    if crate::respmodel::tpp() && info.opt(p[2]) {
         m.push(ks("thirdPartyPayment", Value::Bool(src.bool())));
     }
     Value::Map(m)
